@@ -4,11 +4,15 @@ EXPLANATION = ('(a) Internals::seq_compare for all 2^64 pairs: result in {-1,0,1
                'shift (so any initial sequence number, including ones that wrap). (b) TCPIP::DataTracker (process_payload, store_payload, erase_iterator) on std::map / std::vector from the real '
                'headers: k segments of a W-byte stream whose (offset,length) shapes and initial sequence number (8 values bracketing 0, 2^31 and 2^32) are enumerated concretely while the stream bytes are symbolic; after every '
                'segment the delivered bytes, the delivery point, the buffered chunks and total_buffered_bytes are compared with a bitmap model.')
-BOUNDS = {'quick': 'seq_compare: all pairs; tracker: k=2 segments, every pair of shapes inside W=3 stream bytes (36 pairs) x ISN in {0xfffffffe, 0xffffffff, 0}, any stream bytes',
-          'thorough': 'tracker: k=2 with W=4 (100 pairs) x 8 ISNs'}
+BOUNDS = {'quick': 'seq_compare: all pairs; tracker: k=2 segments, every pair of shapes inside W=3 stream bytes x ISN in {0xfffffffd, 0xffffffff, 0}; k=3 segments at ISN 0xfffffffe: every triple of shapes inside 3 stream bytes and every triple that completes a 4-byte stream; any stream bytes',
+          'thorough': 'tracker: k=2 with W=4 (100 pairs) x 8 ISNs; k=3 with W=4 x ISN in {0xfffffffe, 0, 0x80000000}'}
 OUTSIDE = 'the legacy TCPStream follower; Flow::process_packet callbacks; stale segments before the ISN; streams longer than W; more than 3 segments'
 ASSUMPTIONS = ['the four libstdc++.so red-black-tree primitives are engine/models/rbtree.c (a line-by-line C port of libstdc++ tree.cc)']
 NRAND = {'quick': 30, 'thorough': 100}
+def full(W, *segs):
+    cov = set()
+    for x in segs: cov |= set(range(x >> 4, (x >> 4) + (x & 15)))
+    return cov == set(range(W))
 def shapes(W): return [(o << 4) | l for o in range(W) for l in range(1, W - o + 1)]
 def units(tier):
     return [Unit('seq', shim='seq.cpp'), Unit('c06', shim='c06.cpp', models=['engine/models/rbtree.c'], ctors=False)]
@@ -21,4 +25,13 @@ def instances(tier):
             for b in shapes(W):
                 out.append(Inst('c06', 'h_c06_tracker2', params=(W | (n << 8), a, b), unwind=10, timeout=300, mem_gb=4,
                                 note='ISN #%d, segments (off,len) = (%d,%d) then (%d,%d) of a %d-byte stream' % (n, a >> 4, a & 15, b >> 4, b & 15, W)))
+    # three segments: needed for "a later chunk replaces / outlives a buffered one before the gap closes" and for stale chunks around the wrap
+    W3, isns3 = (4, (6,)) if tier == 'quick' else (4, (6, 0, 3))
+    for n in isns3:
+        for a in shapes(W3):
+            for b in shapes(W3):
+                for c in shapes(W3):
+                    if tier == 'quick' and not full(W3, a, b, c) and not (max((x >> 4) + (x & 15) for x in (a, b, c)) <= 3): continue   # quick: triples that complete the 4-byte stream, plus all triples inside 3 bytes
+                    out.append(Inst('c06', 'h_c06_tracker3', params=(W3 | (n << 8), a, b, c), unwind=10, timeout=300, mem_gb=4,
+                                    note='ISN #%d, three segments %s of a %d-byte stream' % (n, [(x >> 4, x & 15) for x in (a, b, c)], W3)))
     return out
